@@ -87,17 +87,22 @@ pub fn bellerophon<F: RawFloat, const FORMAT: u128>(num: &Number, lossy: bool) -
 
     // Track errors to as a factor of unit in last-precision.
     let mut errors: u32 = 0;
+    let mut fp = ExtendedFloat80 {
+        mant: num.mantissa,
+        exp: 0,
+    };
     if num.many_digits {
-        errors += error_halfscale();
+        // The truncated digits are worth up to one unit in the last place
+        // of the **unnormalized** mantissa: normalize first, so the error
+        // is tracked in units of the 64-bit mantissa, like all other errors.
+        let shift = normalize(&mut fp);
+        let scaled = (error_halfscale() as u64) << shift.min(32);
+        errors += scaled.min((u32::MAX >> 3) as u64) as u32;
     }
 
     // Multiply by the small power.
     // Check if we can directly multiply by an integer, if not,
     // use extended-precision multiplication.
-    let mut fp = ExtendedFloat80 {
-        mant: num.mantissa,
-        exp: 0,
-    };
     match fp.mant.overflowing_mul(powers.get_small_int(small_index as usize)) {
         // Overflow, multiplication unsuccessful, go slow path.
         (_, true) => {
@@ -271,13 +276,18 @@ fn error_is_accurate<F: RawFloat>(errors: u32, fp: &ExtendedFloat80) -> bool {
         // Round-to-nearest, need to check if we're close to halfway.
         // IE, b10100 | 100000, where `|` signifies the truncation point.
         let halfway = lower_n_halfway(maskbits);
-        let cmp1 = halfway.wrapping_sub(errors) < extra;
-        let cmp2 = extra < halfway.wrapping_add(errors);
+        let distance = if extra > halfway {
+            extra - halfway
+        } else {
+            halfway - extra
+        };
 
-        // If both comparisons are true, we have significant rounding error,
-        // and the value cannot be exactly represented. Otherwise, the
-        // representation is valid.
-        !(cmp1 && cmp2)
+        // If the halfway point is within the errors, we have significant
+        // rounding error, and the value cannot be exactly represented.
+        // Otherwise, the representation is valid. This is the same as
+        // `halfway - errors < extra && extra < halfway + errors`, without
+        // wrapping if the errors are larger than the halfway point.
+        distance >= errors
     }
 }
 
